@@ -9,7 +9,8 @@ import PdfModel.Lemmas.ObjStm
   spelling inside `n g obj … endobj`.
 -/
 
-namespace PdfLex
+namespace PdfShift
+open PdfLex
 open PdfSyntax (Gap Bnd Spells needsBnd KeysDistinct namesUtf8 vdepth need wf_of)
 
 variable {R : Type}
@@ -66,4 +67,4 @@ theorem parse_member_slice (env : Env R) (hd : env.decrypt = none) (v : Prim R) 
     (by simp [defaultFuel]; omega) hdepth
   simpa [parse, parseWithLexer] using this
 
-end PdfLex
+end PdfShift
